@@ -29,19 +29,19 @@ type deferred struct {
 }
 
 type frame struct {
-	g       *Goroutine
-	caller  *frame
-	fn      *ssa.Function
-	info    *fnInfo
-	regs    []Value
-	block   *ssa.BasicBlock
-	prev    *ssa.BasicBlock
-	defers  []*deferred
-	result  Value
+	g         *Goroutine
+	caller    *frame
+	fn        *ssa.Function
+	info      *fnInfo
+	regs      []Value
+	block     *ssa.BasicBlock
+	prev      *ssa.BasicBlock
+	defers    []*deferred
+	result    Value
 	panicking bool
 	panicVal  targetPanic
-	curIns  ssa.Instruction
-	callPos token.Pos
+	curIns    ssa.Instruction
+	callPos   token.Pos
 }
 
 func engineStack() string {
